@@ -1,6 +1,5 @@
 package props
 
-
 import (
 	"context"
 	"fmt"
